@@ -27,6 +27,7 @@ CONSTANTS Peers,      \* peers that send datagrams, e.g. {"p1","p2"}
           EstOps,     \* set of op sequences usable in an Establishment Request
           ModOps,     \* set of op sequences usable in a Modification Request
           FaultSets,  \* set of sets of call ordinals that fail in one step
+          Fault2Sets, \* set of sets of ordinals of create calls that fail AFTER having installed the rule
           SeidLits,   \* literal header SEIDs that address no session ("0", "99", ...)
           Kinds,      \* event kinds enabled in this configuration
           MaxSlots,   \* bound on the session table
@@ -52,7 +53,7 @@ ValsOfTok(k) == [tv |-> "tv" \o ToString(k), uv |-> "uv" \o ToString(k), dv |-> 
 Dash == "-"
 
 Ev(t) == [t |-> t, peer |-> "", seq |-> 0, node |-> "", cp |-> "", seid |-> "", sref |-> 0, rref |-> 0,
-          ops |-> <<>>, faults |-> <<>>, reports |-> <<>>, tt |-> "", tpeer |-> "", tseq |-> 0, raw |-> "",
+          ops |-> <<>>, faults |-> <<>>, faults2 |-> <<>>, reports |-> <<>>, tt |-> "", tpeer |-> "", tseq |-> 0, raw |-> "",
           maxrt |-> 0, txseq0 |-> "", tag |-> ""]
 Op(o, kind, id) == [op |-> o, kind |-> kind, id |-> id, urrs |-> <<>>, hasurrs |-> FALSE, ueip |-> FALSE,
                     far |-> 0, meth |-> -1, minfo |-> -1]
@@ -81,14 +82,16 @@ Call(st, o, kind, id) ==
   LET ord == Len(st.calls)
       key == <<SeidStr(st.sd), kind, id>>
       inj == o # "remove" /\ ord \in st.faults
-      ok  == ~inj /\ (IF o = "create" THEN key \notin st.dp ELSE key \in st.dp)
+      fresh == o = "create" /\ ~inj /\ key \notin st.dp
+      inj2 == fresh /\ ord \in st.faults2      \* the rule is installed but the call reports an error
+      ok  == ~inj /\ ~inj2 /\ (IF o = "create" THEN key \notin st.dp ELSE key \in st.dp)
       rep == ok /\ kind = "urr" /\ o \in {"remove", "query"}
       r   == [k |-> "usar", urr |-> id, trig |-> 0, pdr |-> 0, action |-> 0, pkt |-> "", tok |-> st.tok + 1,
               vals |-> ValsOfTok(st.tok + 1)]
-      c   == [op |-> o, kind |-> kind, seid |-> SeidStr(st.sd), id |-> id, res |-> IF ok THEN "ok" ELSE "err",
+      c   == [op |-> o, kind |-> kind, seid |-> SeidStr(st.sd), id |-> id, res |-> IF ok THEN "ok" ELSE IF inj2 THEN "err+" ELSE "err",
               reps |-> IF rep THEN <<r>> ELSE <<>>]
   IN [st EXCEPT !.calls = Append(@, c),
-                !.dp = IF ok /\ o = "create" THEN @ \cup {key} ELSE IF ok /\ o = "remove" THEN @ \ {key} ELSE @,
+                !.dp = IF fresh THEN @ \cup {key} ELSE IF ok /\ o = "remove" THEN @ \ {key} ELSE @,
                 !.tok = IF rep THEN @ + 1 ELSE @,
                 !.ok = ok, !.rep = IF rep THEN <<r>> ELSE <<>>]
 
@@ -185,7 +188,7 @@ CloseOps(s) ==
 Close(st) == FoldLeft(ApplyOp, st, CloseOps(st.s))
 
 St0(s, sd, dpl, tk, faults) == [s |-> s, sd |-> sd, dp |-> dpl, calls |-> <<>>, usars |-> <<>>, tok |-> tk,
-                                faults |-> faults, ok |-> TRUE, rep |-> <<>>]
+                                faults |-> faults, faults2 |-> {}, ok |-> TRUE, rep |-> <<>>]
 
 \* usage-report IEs of a Modification / Deletion response: UR-SEQN taken when the IE is emitted,
 \* bookkeeping of a removed URR dropped after its report
@@ -289,9 +292,10 @@ AssocOther(p, q, t) ==
 \* ------------------------------------------------------------------ actions: session level
 NewOrd == Cardinality({i \in 1..turns : hist[i].t = "est" /\ hist[i].tag = "accepted"}) + 1
 
-Establish(p, q, n, cp, ops, faults) ==
+Establish(p, q, n, cp, ops, faults, faults2) ==
   LET accepted == n \in DOMAIN nodes /\ cp # ""
-      e0 == [Ev("est") EXCEPT !.peer = p, !.seq = q, !.node = n, !.cp = cp, !.ops = ops, !.faults = SetToSortedSeq(faults)]
+      e0 == [Ev("est") EXCEPT !.peer = p, !.seq = q, !.node = n, !.cp = cp, !.ops = ops, !.faults = SetToSortedSeq(faults),
+                              !.faults2 = SetToSortedSeq(faults2)]
       e == [e0 EXCEPT !.tag = IF accepted /\ ~IsRetrans(e0) THEN "accepted" ELSE ""]
   IN /\ "est" \in Kinds
      /\ nseq' = [nseq EXCEPT ![p] = IF SeqNos = {} THEN q ELSE @]
@@ -305,7 +309,7 @@ Establish(p, q, n, cp, ops, faults) ==
            /\ LET sd == IF free # <<>> THEN free[Len(free)] ELSE Len(slots) + 1     \* LocalNode.NewSess
                   fr == IF free # <<>> THEN SubSeq(free, 1, Len(free) - 1) ELSE free
                   s0 == [NoSess EXCEPT !.live = TRUE, !.cp = cp, !.node = n, !.ord = NewOrd]
-                  st == ApplyOps(St0(s0, sd, dp, tok, faults), ops)
+                  st == ApplyOps([St0(s0, sd, dp, tok, faults) EXCEPT !.faults2 = faults2], ops)
                   sl == IF sd > Len(slots) THEN Append(slots, st.s) ELSE [slots EXCEPT ![sd] = st.s]
                   nds == [nodes EXCEPT ![n].sess = @ \cup {sd}]
                   created == SelectSeq(ops, LAMBDA o : o.op = "create" /\ o.kind = "pdr" /\ o.ueip)
@@ -329,10 +333,10 @@ NotFound(e, mt) ==
      /\ Commit(e, <<>>, <<d>>, slots, free, rx', tx, txseq, nodes)
      /\ UNCHANGED <<nodes, slots, free, tx, txseq, dp, tok, rts>>
 
-Modify(p, q, sref, lit, newnode, ops, faults) ==
+Modify(p, q, sref, lit, newnode, ops, faults, faults2) ==
   LET hs == HdrSeid(sref, lit)
       e == [Ev("mod") EXCEPT !.peer = p, !.seq = q, !.seid = hs, !.sref = sref, !.node = newnode, !.ops = ops,
-                             !.faults = SetToSortedSeq(faults)]
+                             !.faults = SetToSortedSeq(faults), !.faults2 = SetToSortedSeq(faults2)]
       i == SlotOfSeid(slots, hs)
   IN /\ "mod" \in Kinds
      /\ hs # "none"
@@ -346,7 +350,7 @@ Modify(p, q, sref, lit, newnode, ops, faults) ==
                          ELSE [x \in ((DOMAIN nodes) \ {s.node}) \cup {newnode} |-> IF x = newnode THEN nodes[s.node] ELSE nodes[x]]
                   sl0 == IF newnode = "" THEN slots
                          ELSE [j \in DOMAIN slots |-> IF slots[j].live /\ slots[j].node = s.node THEN [slots[j] EXCEPT !.node = newnode] ELSE slots[j]]
-                  st == ApplyOps(St0(sl0[i], i, dp, tok, faults), ops)
+                  st == ApplyOps([St0(sl0[i], i, dp, tok, faults) EXCEPT !.faults2 = faults2], ops)
                   em == EmitUsage(st.s, st.usars, 0)
                   d == Seal([Dgram(p, MT_MODRSP, q) EXCEPT !.hasseid = TRUE, !.seid = s.cp, !.cause = CAUSE_OK, !.rpts = em.ies])
                   sl == [sl0 EXCEPT ![i] = em.s]
